@@ -50,10 +50,13 @@ pub fn exec_inflate_proto(s: &Script, st: &mut Stats) -> Result<RunInfo, Violati
         let pre = s.blob("prelude_stream");
         let mut tiny = [0u8; 3];
         let _ = inflate(&mut state, pre, &mut tiny[..(s.c("prelude") as usize % 4)], MZFlush::None);
-        if s.c("prelude") % 2 == 0 {
-            state.reset(fmt);
-        } else {
-            state.reset_as(miniz_oxide::inflate::stream::ZeroReset);
+        match s.c_or("prelude_policy", if s.c("prelude") % 2 == 0 { 0 } else { 1 }) {
+            1 => state.reset_as(miniz_oxide::inflate::stream::ZeroReset),
+            // MinReset keeps the old window (known finding of C18 for corrupt streams that read before their
+            // start); the generator uses it only in front of streams that are valid or pure truncations
+            2 => state.reset_as(miniz_oxide::inflate::stream::MinReset),
+            3 => state.reset_as(miniz_oxide::inflate::stream::FullReset(fmt)),
+            _ => state.reset(fmt),
         }
         st.inc("probe.state_reused_after_reset");
     }
